@@ -13,8 +13,8 @@ from math import pi, sqrt
 from pyparsing import (Literal, Optional, White, Regex,
                        ZeroOrMore, OneOrMore, Forward, StringEnd, Group)
 
-from .core import default_table, isatom, isisotope, change_table
-from .constants import avogadro_number
+from .core import default_table, isatom, isisotope, ision, change_table
+from .constants import avogadro_number, electron_mass
 from .util import require_keywords, cell_volume
 
 PACKING_FACTORS = dict(cubic=pi/6, bcc=pi*sqrt(3)/8, hcp=pi/sqrt(18),
@@ -338,11 +338,7 @@ class Formula(object):
         """
         total_natural_mass = total_isotope_mass = 0
         for el, count in self.atoms.items():
-            try:
-                natural_mass = el.element.mass
-            except AttributeError:
-                natural_mass = el.mass
-            total_natural_mass += count * natural_mass
+            total_natural_mass += count * _natural_mass(el)
             total_isotope_mass += count * el.mass
         return total_natural_mass/total_isotope_mass
 
@@ -612,6 +608,17 @@ class Formula(object):
     def __repr__(self):
         return "formula('%s')"%(str(self))
 
+
+def _natural_mass(atom):
+    """
+    Mass of the atom with a specific isotope replaced by the element in
+    natural abundance, keeping the charge if it is an ion.
+    """
+    if ision(atom):
+        return _natural_mass(atom.element) - electron_mass*atom.charge
+    if isisotope(atom):
+        return atom.element.mass
+    return atom.mass
 
 def _isotope_substitution(compound, source, target, portion=1):
     """
